@@ -59,7 +59,8 @@ def _selector(l: Event, ctx: Optional[Ctx] = None) -> Optional[bool]:
     it = l.iter
     # filter(pred, xs) / itertools.filterfalse(pred, xs) with a named predicate `return isinstance(x, IndexMarket)`
     if it is not None and ctx is not None and it[0] == "call" and key(it[1]) in ("filter", "itertools.filterfalse", "filterfalse") and len(it[2]) == 2 and it[2][0][0] == "name":
-        g = ctx.program.functions.get(it[2][0][1])
+        nm_ = it[2][0][1]
+        g = ctx.program.functions.get(nm_) or ctx.program.functions.get(":".join(nm_.rsplit(".", 1)))
         if g is not None and len(g.params) == 1:
             import ast as _ast
 
@@ -91,6 +92,7 @@ def _selector(l: Event, ctx: Optional[Ctx] = None) -> Optional[bool]:
 @rule("C06.R2", "all markets are stepped together: ordinary markets first, index markets after them, each asked for time+1", "T5 ordering + T7", floor=3)
 def r2(ctx: Ctx) -> None:
     f = ctx.func(UTS)
+    ctx.func(UTM)  # the per-market routine the stepping order is stated in terms of (a vanished anchor aborts the rule)
     for p in normal_paths(ctx.paths(UTS)):
         lps = loops(p)
         seq: List[Tuple[Optional[bool], str]] = []
